@@ -832,12 +832,12 @@ theorem dilV_form (d : Option Nat) : dilV (form d) = dilationOf d := by cases d 
 theorem posForm_form {s : Option Nat} (h : ∀ v, s = some v → 0 < v) : PosForm (form s) := by
   cases s with
   | none => exact Or.inl rfl
-  | some v => exact Or.inr ⟨v, h v rfl, rfl⟩
+  | some v => exact Or.inr (Or.inl ⟨v, h v rfl, rfl⟩)
 
 theorem intForm_form (p : Option Nat) : IntForm (form p) := by
   cases p with
   | none => exact Or.inl rfl
-  | some v => exact Or.inr ⟨v, rfl⟩
+  | some v => exact Or.inr (Or.inl ⟨v, rfl⟩)
 
 /-- **conv1d, any batch / stride / zero padding / dilation / groups / optional bias, each option passed as `None` or as an
     integer.**  For an input `(N, g·Cg, L)`, a weight `(Og·g, Cg, K)` (so `groups = g` is any common divisor of the
@@ -890,6 +890,44 @@ theorem conv1d_eq_nested_loop (x w : Arr Int) (bias : Option (Arr Int)) (N Og g 
   refine ⟨r, h1, h2, fun n o l hn ho hl => ?_⟩
   rw [h3 n o l hn ho hl]
   exact conv1dLoop_congr_grp (grpCode_eq_grpSpec hdom ho) x w bias L Cg K _ _ _ n l
+
+/-- **conv1d, every argument form the C++ accepts**: stride, padding and dilation each given as `None`, as an integer, or
+    as a one-element index array `[v]` (`conv_slices`, `conv_pad`, `conv_expand_spacing` read `at(arg, 0)`), independently
+    of each other — 27 combinations, of which `conv1d_eq_code_loop` covers the 8 without arrays.  Values: `strideVal`,
+    `padVal`, `dilV` (`None` ↦ 1 / 0 / 1).  Same conclusion: defined, the standard extent, every element the nested loop
+    with the code's group assignment. -/
+theorem conv1d_forms_eq_code_loop (x w : Arr Int) (bias : Option (Arr Int)) (N Og g Cg L K : Nat) (stride padding dilation : PArg)
+    (hx : x.shape = [N, g * Cg, L]) (hw : w.shape = [Og * g, Cg, K]) (hb : ∀ b, bias = some b → b.shape = [Og * g])
+    (hOg : 0 < Og) (hg : 0 < g) (hK : 0 < K) (hs : PosForm stride) (hp : IntForm padding) (hd : PosForm dilation)
+    (hfit : Fits L K (padVal padding) (dilV dilation)) :
+    ∃ r, convnd 1 x w bias stride padding dilation g = .ok r ∧
+      r.shape = [N, Og * g, outSize L K (strideVal stride) (padVal padding) (dilV dilation)] ∧
+      ∀ n o l, n < N → o < Og * g → l < outSize L K (strideVal stride) (padVal padding) (dilV dilation) →
+        r.get [n, o, l] = conv1dLoop (grpCode g) x w bias L Cg K (strideVal stride) (padVal padding) (dilV dilation) n o l := by
+  have hfit' : (K - 1) * dilV dilation + 1 ≤ L + 2 * padVal padding := by rw [Nat.mul_comm]; exact hfit
+  exact convnd1_eq_codeLoop (bias := bias) hx hw hb hOg hg hK hs hp hd hfit'
+
+/-- … and equal to the PyTorch nested loop on the domain of `conv1d_eq_nested_loop` -/
+theorem conv1d_forms_eq_nested_loop (x w : Arr Int) (bias : Option (Arr Int)) (N Og g Cg L K : Nat) (stride padding dilation : PArg)
+    (hx : x.shape = [N, g * Cg, L]) (hw : w.shape = [Og * g, Cg, K]) (hb : ∀ b, bias = some b → b.shape = [Og * g])
+    (hOg : 0 < Og) (hg : 0 < g) (hK : 0 < K) (hs : PosForm stride) (hp : IntForm padding) (hd : PosForm dilation)
+    (hfit : Fits L K (padVal padding) (dilV dilation)) (hdom : g = 1 ∨ Og = 1) :
+    ∃ r, convnd 1 x w bias stride padding dilation g = .ok r ∧
+      r.shape = [N, Og * g, outSize L K (strideVal stride) (padVal padding) (dilV dilation)] ∧
+      ∀ n o l, n < N → o < Og * g → l < outSize L K (strideVal stride) (padVal padding) (dilV dilation) →
+        r.get [n, o, l] = conv1dLoop (grpSpec (Og * g) g) x w bias L Cg K (strideVal stride) (padVal padding) (dilV dilation) n o l := by
+  obtain ⟨r, h1, h2, h3⟩ := conv1d_forms_eq_code_loop x w bias N Og g Cg L K stride padding dilation hx hw hb hOg hg hK hs hp hd hfit
+  refine ⟨r, h1, h2, fun n o l hn ho hl => ?_⟩
+  rw [h3 n o l hn ho hl]
+  exact conv1dLoop_congr_grp (grpCode_eq_grpSpec hdom ho) x w bias L Cg K _ _ _ n l
+
+/-- non-vacuity: stride `[2]` (array), padding `1` (integer), dilation `[2]` (array) on `(1, 2, 5)` with a `(3, 2, 2)` weight:
+    defined, extent ⌊(5 + 2 − 2 − 1)/2⌋ + 1 = 3 -/
+example : ∃ r, convnd 1 ⟨[1, 2, 5], fun _ => 1⟩ ⟨[3, 2, 2], fun _ => 1⟩ none (.arr [2]) (.int 1) (.arr [2]) 1 = .ok r ∧ r.shape = [1, 3, 3] := by
+  obtain ⟨r, h1, h2, _⟩ := conv1d_forms_eq_nested_loop ⟨[1, 2, 5], fun _ => 1⟩ ⟨[3, 2, 2], fun _ => 1⟩ none 1 3 1 2 5 2 (.arr [2]) (.int 1) (.arr [2])
+    rfl rfl (by intro b h; cases h) (by decide) (by decide) (by decide) (Or.inr (Or.inr ⟨2, by decide, rfl⟩)) (Or.inr (Or.inl ⟨1, rfl⟩))
+    (Or.inr (Or.inr ⟨2, by decide, rfl⟩)) (by decide) (Or.inl rfl)
+  exact ⟨r, h1, h2⟩
 
 /-- witnesses used by the examples: `x[n,c,j] = 100·n + 10·c + j + 1`, `w[o,c,k] = 100·o + 10·c + k + 1` -/
 def xW (shape : Shape) : Arr Int := ⟨shape, fun i => match i with | [n, c, j] => (100 * n + 10 * c + j + 1 : Nat) | _ => 0⟩
